@@ -22,7 +22,8 @@ ASSUMPTIONS = [
     "Output case is compared case-insensitively (the property fixes which letters are exchanged, not the case).",
     "Translation input that is already encoded with a DNA alphabet (ACGT, ACGTN) is re-targeted by the library to the codon alphabet and is refused when that is not possible: for such input the oracle is 'the same protein as for the text, or an exception' (counted under raised_allowed), never a different protein.",
 ]
-REQUIRED_CLASSES = ["lower-case", "contains-N", "empty-row", "ascii", "ACGT", "ACGTn", "minus-strand", "length-one-interval", "stop-codon", "all-64-codons", "many-intervals", "genomic", "translate-encoded-input", "lazily-read-entries", "indexed-fasta-in-another-order", "intervals-passed-through-clip-replace-slice-concatenate-or-extension"]
+REQUIRED_CLASSES = ["lower-case", "contains-N", "empty-row", "ascii", "ACGT", "ACGTn", "minus-strand", "length-one-interval", "stop-codon", "all-64-codons", "many-intervals", "genomic", "translate-encoded-input", "lazily-read-entries", "indexed-fasta-in-another-order", "intervals-passed-through-clip-replace-slice-concatenate-or-extension",
+                    "earlier-result-edited-then-extracted-again", "single-interval-result-edited-then-extracted-again"]
 BOUNDS = {"quick": "revcomp: all 11110 strings of length <= 4 in ASCII and ACGTn; translation: 64 codons + 4096 pairs + 4096 strided triples; 300 sampled per family",
           "thorough": "same exhaustive cores in all three encodings; all 262144 codon triples; 10000 sampled per family"}
 BUDGET_S = {"quick": 200, "thorough": 1500}
@@ -69,6 +70,10 @@ def classify(case):
             cl.append("minus-strand")
         if len(case["ivs"]) >= 17:
             cl.append("many-intervals")
+        if case.get("edit_result"):
+            cl.append("earlier-result-edited-then-extracted-again")
+            if len(case["ivs"]) == 1:
+                cl.append("single-interval-result-edited-then-extracted-again")
         if case.get("fasta_order"):
             cl.append("indexed-fasta-in-another-order")
         if case.get("via") and any(z == "-" for _, _, _, z in case["ivs"]):
@@ -181,6 +186,24 @@ def check(case, stats=None):
                 bad = next(i for i, (g, w) in enumerate(zip(got, want)) if g != w) if len(got) == len(want) else None
                 return [Failure("C14:genomic-sequence-stranded" + (":after-" + via if via else ""), {"n_intervals": len(ivs), "first_wrong_row": bad,
                                                                   "expected": want[:6], "actual": got[:6]})]
+            if case.get("edit_result"):
+                # the caller hard-masks letters in the sequences it was given (its own result); a later extraction of the same intervals from the
+                # same genome object still gives the genome's letters
+                first = gs[gi]
+                edited = False
+                try:
+                    for ch in case["edit_result"]:
+                        first[first == ch] = "N"
+                    edited = True
+                except Exception:
+                    if stats is not None:
+                        stats.tolerant["editing-the-extracted-rows-refused"] += 1
+                if edited:
+                    again = [x.upper() for x in gs[gi].tolist()]
+                    if again != want:
+                        bad = next(i for i, (g, w) in enumerate(zip(again, want)) if g != w) if len(again) == len(want) else None
+                        return [Failure("C14:genomic-sequence-stranded:after-editing-an-earlier-result", {"n_intervals": len(ivs), "first_wrong_row": bad, "masked": case["edit_result"],
+                                                                                                        "expected": want[:6], "actual": again[:6]})]
             if case.get("fasta_order"):
                 ivs = case["ivs"]          # (the intervals as given: no extension on this route)
                 want = [(revcomp(seqs[c][a:b]) if z == "-" else seqs[c][a:b]).upper() for c, a, b, z in ivs]
@@ -340,11 +363,13 @@ def sampled_case(draw, kind, maxlen):
         names = ["chr1", "chr2", "chr10"][:draw(st.integers(1, 3))]
         seqs = {n: draw(st.text(alphabet="ACGTN", min_size=1, max_size=maxlen)) for n in names}
         ivs = []
-        for _ in range(draw(st.one_of(st.integers(1, 8), st.integers(17, 40)))):
+        for _ in range(draw(st.one_of(st.just(1), st.integers(1, 8), st.integers(17, 40)))):
             c = draw(st.sampled_from(names))
             a = draw(st.integers(0, len(seqs[c]) - 1))
             ivs.append([c, a, draw(st.integers(a + 1, len(seqs[c]))), draw(st.sampled_from("+-"))])
         case = {"kind": kind, "seqs": seqs, "ivs": ivs, "via": draw(st.sampled_from([None, None, "clip", "replace", "slice", "concat", "extend"])), "L": draw(st.integers(1, 12))}
+        if draw(st.integers(0, 2)) == 0:
+            case["edit_result"] = draw(st.sampled_from(["G", "GT", "A", "ACGT"]))
         if kind == "genomic" and draw(st.booleans()):
             case["fasta_order"] = draw(st.permutations(list(names)))
             case["sort_names"] = draw(st.booleans())
